@@ -40,7 +40,14 @@ RULE = (
     "every integer/float/string array at each tolerance (plus the listed column-like arrays of length 8/32/100: "
     "constants, ramps, alternations, runs), then file representation round trip; 'file' = columns "
     "with every mask over {0,1,2}^n, wrapped in category/block/file, written, read back, compared with == and "
-    "array-wise, also after compress() at each container level. A case counts as non-trivial when the array is "
+    "array-wise, also after compress() at each container level; 'reuse' = ONE encoding object (every class, every "
+    "2-stage integer chain, float/string chains, the list compress() returns) encodes array A and then array B for "
+    "every ordered pair of a palette whose members determine different parameters (dtype, sign, width, length, "
+    "origin, string table): B must come back exactly (floats: within the bound precision) or be refused, and must "
+    "not be refused when a fresh object determines equal parameters (==) from B; one object decodes the encoded "
+    "forms of A, B, A (same object, deserialised copy, RunLength without src_size); BinaryCIFData arrays overwritten "
+    "in place and category columns replaced / overwritten between two writes of one file object (also after "
+    "reading it); compress(compress(x)), compress(read(write(compress(x)))). A case counts as non-trivial when the array is "
     "non-empty and the oracle either compared a decoded non-empty array element-wise with the original or "
     "observed the refusal of a value that the model says the representation cannot hold."
 )
@@ -54,6 +61,9 @@ ASSUMPTIONS = [
     "interval and +-inf are clamped by the format definition and are not judged; NaN must be refused or stay NaN",
     "FixedPoint tolerance: 0.5/factor plus 4 ulp of the value in the narrower of data/src_type precision; products "
     "within 1e-12 (float32: 1e-6) relative of the int32 limit or of a rounding tie are judged as unspecified",
+    "reuse: every auto-determined parameter is documented as taken from the data of the first encode() call, so "
+    "an object that has seen A may refuse B (any Exception) unless a fresh object determines equal parameters from "
+    "B; a float array is never the FIRST array of a Delta/RunLength/IntegerPacking object (documented integer input)",
     "integer arrays are not sent to float ByteArray types nor float arrays to integer ByteArray types "
     "(statement silent on cross-kind casts)",
     "files whose arrays contain NaN are compared array-wise (bit pattern class) instead of with ==, because "
@@ -2191,6 +2201,10 @@ def bounds(tier):
         "compress_tolerances": TOLS,
         "file_rows": "0..3" if q else "0..4",
         "pack_cap": M.PACK_CAP,
+        "reuse_arrays": {"int": len(REUSE_INT), "float": len(REUSE_FLOAT), "str": len(REUSE_STR)},
+        "reuse_chains": {"int": len(REUSE_INT_CHAINS), "float": len(REUSE_FLOAT_CHAINS), "str": len(REUSE_STR_SPECS),
+                         "plus": "encoding list returned by compress()"},
+        "reuse_container_variants": CONTAINER_VARIANTS,
     }
 
 
